@@ -7,6 +7,7 @@ package main
 
 import (
 	"fmt"
+	"os"
 	"strings"
 
 	"github.com/benhoyt/goawk/interp"
@@ -118,6 +119,17 @@ func main() {
 	rep := hx.NewReport("C01", o.Seed, o.Tier)
 	rep.Rule = "grammar-directed programs (functions with scalar/array params, BEGIN, pattern/range rules, END; every statement kind, lvalue kind x scope, operator, builtin and call shape of awkgen); correspondence: model compiler output = Go compiler output, word for word; search: each program vs 7 respellings + hand-written shortcut probes; distinct = distinct program text; non-trivial = compiled program has more than 8 opcode words"
 	r := hx.NewRand(o.Seed)
+	if os.Getenv("C01_DUMP_EXEC") != "" { // debugging aid: show generated integer-fragment programs and what they do
+		for i := 0; i < 400; i++ {
+			src := execProgram(r)
+			if _, err := parser.ParseProgram([]byte(src), nil); err != nil {
+				fmt.Printf("---- unparsable: %v\n%s\n", err, src)
+			} else if i < 3 {
+				fmt.Printf("---- ok: %s\n%s\n", runToy(src), src)
+			}
+		}
+		return
+	}
 	nCompile, nExec := 1500, 700
 	if o.Tier == "thorough" {
 		nCompile, nExec = 60000, 25000
